@@ -119,6 +119,7 @@ fn dispatch(ctx: &mut dec::Ctx, cmd: &Value) -> Vec<Value> {
         "strength_table" => vec![pure::strength_table(cmd)],
         "reader" => vec![rdr::reader(cmd)],
         "idct" => vec![dec::idct(cmd)],
+        "annexa" => vec![dec::annexa(cmd)],
         "rle" => vec![dec::rle(cmd)],
         "mv" => vec![dec::mv(cmd)],
         "cand" => vec![dec::cand(cmd)],
